@@ -57,6 +57,9 @@ def before(a, b, i, j):
 def loop_invariant(ex, i, j):
     g = ex.ghost
     ctx = ex.ctx
+    if "seen" not in g:
+        # the set of written fields must exist before the first pair is visited (created once, outside both loops)
+        return [("one_set_of_seen_fields_for_the_whole_double_loop", z3.BoolVal(False))]
     out_, seen, A, M, S, x1, x2, upos = g["out"], g["seen"], g["A"], g["M"], g["S"], g["x1"], g["x2"], g["upos"]
     a, b = z3.Int(ctx.fresh("a")), z3.Int(ctx.fresh("b"))
     return [
@@ -125,6 +128,8 @@ class Multiply(Contract):
     def _loops(self):
         def havoc_state(ex, env):
             g = ex.ghost
+            if "seen" not in g or "out" not in g:
+                return
             out_ = g["out"]
             cf, inf = ex.ctx.func("C_h", I, Idx, R), ex.ctx.func("init_h", I, Idx, B)
             out_._C = lambda t, idx: cf(t, idx)
@@ -150,6 +155,8 @@ class Multiply(Contract):
         def outer_exit(ex, env):
             g = ex.ghost
             ctx = ex.ctx
+            if "seen" not in g:
+                return []
             M, seen, usi, usj, upos, x1, x2 = g["M"], g["seen"], g["usi"], g["usj"], g["upos"], g["x1"], g["x2"]
             l1 = ctx.forall_range(0, M, lambda t: z3.Implies(z3.And(0 <= usi(t), usi(t) < x1.N, 0 <= usj(t), usj(t) < x2.N,
                                                                    upos(usi(t), usj(t)) == t), seen.has(t)))
